@@ -1,4 +1,5 @@
 import GoPlugin.Lemmas.MuxBroker
+import GoPlugin.Lemmas.MuxBrokerFrame
 /-
 C06 — MuxBroker connects Dial(id) only to Accept(id).
 
@@ -73,9 +74,56 @@ theorem dispense_reaches_its_server (P : Params) (hP : P.Good) (s : State) (h : 
   obtain ⟨s2, h2, _, h2'⟩ := dial_then_accept_succeeds P hP s h n hfresh hrun hq
   exact ⟨⟨s1, h1, h1'⟩, ⟨s2, h2, h2'⟩⟩
 
+
+/-! ### Any number of concurrently outstanding distinct ids
+
+The three success theorems above run the five events of one establishment consecutively.  The
+following four lift that to arbitrary interleavings with everything that concerns OTHER ids: an
+event about another id (or the clock) changes nothing labelled n (`distinct_ids_independent`),
+so a waiting Accept(n) stays exactly as it is until something about n happens
+(`waiting_accept_stable`); and each of the three steps about n that complete the establishment is
+enabled, and has the right effect, in ANY state in which its own premise holds — whatever else is
+going on (`dial_lands_in_waiting_slot`, `park_into_empty_slot`, `accept_takes_parked`). -/
+
+/-- **Frame**: an event about another id leaves the map entry, slots, Accept goroutines, streams and expiry
+goroutines of id n untouched. -/
+theorem distinct_ids_independent (P : Params) (n : Nat) (s s' : State) (e : Event)
+    (h : Reachable P s) (hs : step P s e = some s') (hid : eventId s e ≠ some n) : SameFor n s s' :=
+  other_ids_do_not_disturb P n s s' e (consistent_of_reachable P s h) hs hid
+
+/-- A waiting Accept(n) — registered slot, its buffer, the goroutine — is exactly preserved by every event
+that is not about n: only its own timer, its own take, or the expiry of a stream parked for n can change it. -/
+theorem waiting_accept_stable (P : Params) (n g k : Nat) (a : Acc) (sl : Slot) (s s' : State) (e : Event)
+    (h : Reachable P s) (ha : s.accs g = some a) (hai : a.id = n) (hk : s.slots k = some sl) (hsl : sl.id = n)
+    (hm : s.map n = some k) (hs : step P s e = some s') (hid : eventId s e ≠ some n) :
+    s'.accs g = some a ∧ s'.slots k = some sl ∧ s'.map n = some k := by
+  have f := distinct_ids_independent P n s s' e h hs hid
+  exact ⟨f.accs_eq g a ha hai, f.slots_eq k sl hk hsl, by rw [f.map_eq, hm]⟩
+
+/-- When `Run` takes a stream dialled for n while n's slot k is registered, it picks slot k — in any state. -/
+theorem dial_lands_in_waiting_slot (P : Params) (s : State) (sid : Nat) (q : List Nat) (n k : Nat)
+    (hrun : s.run = .idle) (hq : s.queue = sid :: q) (hl : s.lock = none)
+    (hx : s.streams sid = some ⟨n, .queued⟩) (hm : s.map n = some k) :
+    ∃ s', step P s .runTake = some s' ∧ s'.run = .have n k sid ∧ s'.slots = s.slots ∧ s'.accs = s.accs := by
+  simp [step, hrun, hq, hl, hx, getStream, hm, setStream]
+
+/-- Parking into an empty slot succeeds — in any state. -/
+theorem park_into_empty_slot (P : Params) (s : State) (n k sid : Nat) (sl : Slot)
+    (hrun : s.run = .have n k sid) (hk : s.slots k = some sl) (hb : sl.buf = none) :
+    ∃ s', step P s .runPark = some s' ∧ s'.slots k = some { sl with buf := some sid } ∧ s'.accs = s.accs ∧ s'.run = .idle := by
+  simp [step, hrun, hk, hb, setStream, setSlot, upd]
+
+/-- A waiting Accept whose slot holds a stream (and whose doneCh is open) can take it at once — in any state —
+and returns exactly that stream. -/
+theorem accept_takes_parked (P : Params) (s : State) (g : Nat) (a : Acc) (sl : Slot) (sid : Nat)
+    (ha : s.accs g = some a) (hpc : a.pc = .wait) (hk : s.slots a.slot = some sl) (hb : sl.buf = some sid)
+    (hd : sl.done = false) :
+    ∃ s', step P s (.accTake g) = some s' ∧ (s'.accs g).map (·.pc) = some (.took sid) := by
+  simp [step, ha, hpc, hk, hb, hd, setAcc, setStream, setSlot, upd]
+
 /-! ### Non-vacuity: a history with three outstanding ids, an expired dial and a duplicate, then a fresh pair -/
 
-def pGood : Params := ⟨true, true, true, 1, 5000, 5000⟩
+def pGood : Params := ⟨true, true, true, true, 1, 5000, 5000⟩
 
 def busyTrace : List Event :=
   [.dial 1, .dial 2, .accept 3, .runTake, .runPark, .runTake, .runPark, .dial 2, .runTake, .runPark,
